@@ -222,8 +222,13 @@ bool ExternalCommand::isResultValid(BuildSystem& system,
 void ExternalCommand::start(BuildSystem& system,
                             core::TaskInterface ti) {
   // Initialize the build state.
+  //
+  // The command object outlives a build when the build system instance is
+  // reused, so everything that is decided per build starts over here.
   skipValue = llvm::None;
   missingInputKeys.clear();
+  canUpdateIfNewer = true;
+  hasPriorResult = false;
 
   // Request all of the inputs.
   unsigned id = 0;
